@@ -12,7 +12,10 @@ func (s starts) Len() int {
 }
 
 func (s starts) Less(i, j int) bool {
-	return s[i].Abpos < s[j].Abpos
+	if s[i].Abpos != s[j].Abpos {
+		return s[i].Abpos < s[j].Abpos
+	}
+	return s[i].Bbpos < s[j].Bbpos
 }
 
 func (s starts) Swap(i, j int) {
@@ -27,7 +30,10 @@ func (e ends) Len() int {
 }
 
 func (e ends) Less(i, j int) bool {
-	return e[i].Aepos < e[j].Aepos
+	if e[i].Aepos != e[j].Aepos {
+		return e[i].Aepos < e[j].Aepos
+	}
+	return e[i].Bepos < e[j].Bepos
 }
 
 func (e ends) Swap(i, j int) {
